@@ -291,7 +291,9 @@ func (s *server) OnWebTransportSession(ctx *types.HttpContext, wt *webtransport.
 		return
 	}
 
-	var wth *struct {
+	// decoded by value: the JSON text `null` leaves a pointer nil and the
+	// field access below would panic
+	var wth struct {
 		Sid string `json:"sid"`
 	}
 
